@@ -748,6 +748,8 @@ func (p *Program) kindOrdinal(site ssa.Instruction, kind string) int {
 				match = kind == "return"
 			case *ssa.Go:
 				match = kind == "go"
+			case *ssa.Select:
+				match = kind == "select"
 			}
 			if match {
 				list = append(list, ent{in, in.Pos()})
